@@ -108,10 +108,18 @@ def lean_build(targets):
 def theorem_names(prop):
     path = os.path.join(LEAN, 'PyecoreModel', 'Properties', f'{prop}.lean')
     src = open(path).read()
-    ns = re.findall(r'^namespace\s+(\S+)', src, re.M)
-    names = re.findall(r'^theorem\s+(' + prop + r'_\w+)', src, re.M)
-    prefix = (ns[0] + '.') if ns else ''
-    return [prefix + n for n in names], src
+    stack, names = [], []
+    for line in strip_comments(src).splitlines():
+        m = re.match(r'^namespace\s+(\S+)', line)
+        if m:
+            stack.append(m.group(1)); continue
+        m = re.match(r'^end\s+(\S+)', line)
+        if m and stack and stack[-1] == m.group(1):
+            stack.pop(); continue
+        m = re.match(r'^theorem\s+(' + prop + r'_\w+)', line)
+        if m:
+            names.append('.'.join(stack + [m.group(1)]))
+    return names, src
 
 
 def strip_comments(src):
